@@ -834,6 +834,10 @@ class Datatype(Item):
         }
 
     def parse_edit(self, edit_data):
+        # The type being defined need not be in the theory yet: declare it
+        # from its head ('a list, ('a, 'b) prod, nat) before parsing.
+        head = edit_data['type'].strip()
+        theory.thy.add_type_sig(head.split()[-1], head.count("'"))
         T = parser.parse_type(edit_data['type'])
         constrs = []
         for constr_decl in edit_data['constrs'].split('\n'):
